@@ -1416,6 +1416,24 @@ func (ex *exec) conv(t_dst, t_src types.Type, x value) value {
 
 		case types.Rune:
 			x := x.([]value)
+			anySymR := false
+			for i := range x {
+				if isSym(x[i]) {
+					anySymR = true
+				}
+			}
+			if anySymR {
+				// ASCII assumption: one byte per rune
+				parts := make([]*Term, len(x))
+				for i := range x {
+					if sv, ok := x[i].(sym); ok {
+						parts[i] = codeStr(sv.t)
+					} else {
+						parts[i] = mkStr(string(x[i].(rune)))
+					}
+				}
+				return valueOfTerm(tConcat(parts...), types.String)
+			}
 			r := make([]rune, 0, len(x))
 			for i := range x {
 				r = append(r, x[i].(rune))
